@@ -37,12 +37,15 @@ ROTATION_PAIR = {
 }
 # Frozen exceptions, one line of reason each (DESIGN.md appendix A.7).
 LINEAR_EXCEPTIONS = {
-    ('fedjax.algorithms.mime', 'create_train_for_each_client.client_step', 'use_rng'):
+    # function -> (reason, structural condition): every use of the doubly used key is a call of one and the same
+    # captured gradient callable
+    ('fedjax.algorithms.mime', 'create_train_for_each_client.client_step'):
         'control variate: both gradient evaluations must see identical randomness',
 }
 CAPTURED_KEY_EXCEPTIONS = {
-    ('fedjax.aggregators.compression', 'rotated_uniform_stochastic_quantizer.apply.quantize_params_and_weight',
-     'rotation_rng'): 'shared public rotation for all clients of a round (algorithm definition)',
+    # function -> reason; condition: the captured key is consumed only by the rotation / inverse-rotation pair
+    ('fedjax.aggregators.compression', 'rotated_uniform_stochastic_quantizer.apply.quantize_params_and_weight'):
+        'shared public rotation for all clients of a round (algorithm definition)',
 }
 
 
@@ -216,14 +219,13 @@ class KeyAnalysis:
     ff = FuncFlow.of(self.repo, fi)
     uses = [u for u in self.uses(ff) if u.kind != 'inspect']
     issues: List[KeyIssue] = []
-    exc_key = lambda root: (fi.module.name, fi.qualname, root)
     # group by identity
     by: Dict[tuple, List[Use]] = {}
     for u in uses:
       by.setdefault(u.ident, []).append(u)
     for ident, us in by.items():
       root = us[0].root
-      if exc_key(root) in LINEAR_EXCEPTIONS:
+      if (fi.module.name, fi.qualname) in LINEAR_EXCEPTIONS and self._same_captured_callee(ff, us):
         continue
       redefs = {nid for nid, ds in ff.rd.defs_at.items() if any(d.name == root for d in ds)}
       idx_names = {nm for nm, _ in ident[2]}
@@ -264,6 +266,15 @@ class KeyAnalysis:
                                    f'{getattr(second.expr, "lineno", 0)}'))
             flagged = True
     return issues, uses
+
+  def _same_captured_callee(self, ff: FuncFlow, us: List[Use]) -> bool:
+    """All uses are consumptions by calls of one captured (free-variable) callable."""
+    names = set()
+    for u in us:
+      if u.kind != 'consume' or u.call is None or not isinstance(u.call.func, ast.Name) or ff.is_local(u.call.func):
+        return False
+      names.add(u.call.func.id)
+    return len(names) == 1
 
   def _root_name_node(self, e: ast.AST) -> ast.Name:
     x = e
@@ -354,11 +365,13 @@ class KeyAnalysis:
           if sc.lookup_scope(x.id) is not b:
             continue
           # is it shadowed by an own parameter/local? (lookup_scope says no)
-          if (fi.module.name, fi.qualname, x.id) in CAPTURED_KEY_EXCEPTIONS:
-            continue
           parent = m.parent_of.get(x)
           if isinstance(parent, ast.keyword):
             parent = m.parent_of.get(parent)
+          if (fi.module.name, fi.qualname) in CAPTURED_KEY_EXCEPTIONS and isinstance(parent, ast.Call):
+            rr = ff.callee(parent)
+            if rr.kind == 'func' and f'{rr.func.module.name}:{rr.func.qualname}' in ROTATION_PAIR:
+              continue
           if isinstance(parent, ast.Call) and x is not parent.func:
             out.append(KeyIssue(fi, 'K-CAPTURED', x, f'{x.id} in {txt(parent)[:60]}',
                                 f'key {x.id!r} captured from the enclosing function is consumed inside '
